@@ -18,7 +18,7 @@ def cases():
         exp = first[len("# expect:"):].split()
         name = os.path.basename(p)[:-6]
         if exp[0] == "neutral":
-            yield name, p, "neutral", exp[1].split(","), ""
+            yield name, p, "neutral", (sorted(claimed) if exp[1] == "ALL" else exp[1].split(",")), ""
         else:
             yield name, p, "violation", [exp[0]], " ".join(exp[1:])
     for d in sorted(glob.glob(ROOT + "/seeded/*/")):
